@@ -50,6 +50,14 @@ def decodable (p : Option Hdr) : Bool :=
     | none => true
     | some a => knownAlgs.contains a
 
+/-- the general encoder's verdict does not depend on the payload (`generale` / `generaled`: the empty payload) -/
+def general (hs : List String) : String :=
+  match (hs.mapM parseHdr).bind pairs with
+  | some rs => match generalEncoder rs with
+    | none => "ok"
+    | some i => s!"err@{i}"
+  | none => "bad-request"
+
 def handle : List String → String
   | ["flat", p, u] =>
     match parseHdr p, parseHdr u with
@@ -59,12 +67,9 @@ def handle : List String → String
     match parseHdr p with
     | some (some p) => okErr (validateCompact p)
     | _ => "bad-request"
-  | "general" :: hs =>
-    match (hs.mapM parseHdr).bind pairs with
-    | some rs => match generalEncoder rs with
-      | none => "ok"
-      | some i => s!"err@{i}"
-    | none => "bad-request"
+  | "generale" :: hs => general hs
+  | "generaled" :: hs => general hs
+  | "general" :: hs => general hs
   | ["dflat", p, u] =>
     match parseHdr p, parseHdr u with
     | some p, some u => decodeOne p u
